@@ -191,3 +191,11 @@ Example C11_nonvacuous_lists :
         mkg 6 26 tt [(2912, -2); (2912, -1); (2913, -2); (2913, -1); (2914, -2); (2914, -1); (2915, -2); (2915, -1)]] /\
   q2e [mkq 6 2914 26 51 true] 6 26 = Ok ["6/24/53/26/51"%string].
 Proof. split; [repeat constructor; unfold valid; cbn; lia|]. vm_compute. repeat split; reflexivity. Qed.
+
+(* ---- tie to the source by regeneration (DESIGN.md 4.2): transform.quadkeyCheckZoom translated from /repo's current source is the zoom window 1..31 x 0..35 ---- *)
+From SIDGen Require Generated.
+From SID Require GenEqCheck.
+Theorem C11_generated_quadkeyCheckZoom_is_the_window : forall h v,
+  Generated.quadkeyCheckZoom h v = (((1 <=? h) && (h <=? 31)) && Ids.check_zoom v)%bool.
+Proof. exact GenEqCheck.gen_quadkeyCheckZoom_eq. Qed.
+Print Assumptions C11_generated_quadkeyCheckZoom_is_the_window.
